@@ -251,6 +251,7 @@ fn compile<E: Entry>(
         let mut ast = ast.clone();
 
         // reduced set of passes because only compile-time stuff is possible
+        crate::passes::resolution::assign_languages(&mut ast, crate::game::LanguageKey::Msg, ctx)?;
         crate::passes::resolution::resolve_names(&ast, ctx)?;
         crate::passes::type_check::run(&ast, ctx)?;
         crate::passes::evaluate_const_vars::run(ctx)?;
